@@ -10,7 +10,10 @@ from ..runner import CheckResult
 PROP = 'C04'
 USERS = ['alice', 'bob', 'carol', 'lead', 'robot']   # alice is the author
 AUTHOR, ROBOT, LEAD = 'alice', 'robot', 'lead'
-ABSENT, PART, APPROVED, CHANGES = 0, 1, 2, 3
+ABSENT, PART, APPROVED, CHANGES, BOTH = 0, 1, 2, 3, 4
+# BOTH: the user is listed among the approvals and among the change requests
+# (the statement quantifies over independent subsets; the mock host and
+# Bitbucket keep an approval when changes are requested afterwards)
 SRC_NONE, SRC_COMMENT, SRC_AUTHOR, SRC_CMDLINE = 0, 1, 2, 3
 BYPASSES = ['bypass_author_approval', 'bypass_peer_approval',
             'bypass_leader_approval']
@@ -29,21 +32,21 @@ class StubPR:
         return [u for u in USERS if self.states.get(u, 0) != ABSENT]
 
     def get_approvals(self):
-        return [u for u in USERS if self.states.get(u, 0) == APPROVED]
+        return [u for u in USERS if self.states.get(u, 0) in (APPROVED, BOTH)]
 
     def get_change_requests(self):
-        return [u for u in USERS if self.states.get(u, 0) == CHANGES]
+        return [u for u in USERS if self.states.get(u, 0) in (CHANGES, BOTH)]
 
 
 def reference(peers, leaders_req, need_author, leaders, states, byp, approve,
               unanimity):
     """True = the gate lets the pull request through (statement of C04)."""
-    on_host = {u for u in USERS if states[u] == APPROVED}
+    on_host = {u for u in USERS if states[u] in (APPROVED, BOTH)}
     approvers = set(on_host)
     if approve:
         approvers.add(AUTHOR)
     participants = {u for u in USERS if states[u] != ABSENT}
-    change_req = {u for u in USERS if states[u] == CHANGES}
+    change_req = {u for u in USERS if states[u] in (CHANGES, BOTH)}
     author_ok = (AUTHOR in approvers) or (not need_author) or byp[0]
     peers_ok = byp[1] or len(approvers - {AUTHOR}) >= peers
     nlead = len(approvers & leaders)
@@ -84,7 +87,10 @@ def run_part(p, part, nparts, tier):
     from bert_e.lib.template_loader import render as real_render
     exc.render = lambda template, **kw: 'stub'
     cfgs = configs(tier)
-    user_states = list(itertools.product(range(4), repeat=len(USERS)))
+    # quick: the robot is never both approver and change requester
+    user_states = [st for st in itertools.product(range(5),
+                                                  repeat=len(USERS))
+                   if tier != 'quick' or st[USERS.index(ROBOT)] != BOTH]
     # option part: source of each bypass (4^3) x approve x unanimity
     optsets = list(itertools.product(range(4), range(4), range(4),
                                      (False, True), (False, True)))
@@ -143,7 +149,7 @@ def run_part(p, part, nparts, tier):
                     if render_real:
                         exc.render = lambda template, **kw: 'stub'
                 p.evaluations += 1
-                if any(v in (APPROVED, CHANGES) for v in st) and \
+                if any(v in (APPROVED, CHANGES, BOTH) for v in st) and \
                         (peers or lreq or need_author or unanimity):
                     p.nontrivial += 1
                 case = {'peers': peers, 'leaders_required': lreq,
@@ -163,7 +169,7 @@ def run_part(p, part, nparts, tier):
                     p.counters['rendered'] += 1
                     msg = str(err)
                     for u in USERS:
-                        if states[u] == CHANGES and ('@' + u) not in msg:
+                        if states[u] in (CHANGES, BOTH) and ('@' + u) not in msg:
                             p.mismatch('message-omits-change-requester',
                                        'ApprovalRequired message does not '
                                        'name change requester %s' % u, case)
@@ -192,7 +198,8 @@ def run(tier, seed, workers=None):
              'set) accepted by the settings schema x source of each bypass '
              '{none, comment, per-author, command line}^3 x approve x '
              'unanimity x review state {absent, participant, approved, '
-             'changes requested}^5 users; non-trivial = some requirement is '
+             'changes requested, approved and changes requested}^5 users '
+             '(quick: the robot never in the last state); non-trivial = some requirement is '
              'on and somebody approved or requested changes',
         assumptions=['job.settings set as Reactor.handle_options would for '
                      'comment-sourced options (parsing itself is C07)',
